@@ -9,7 +9,8 @@ CONC = ("C06", "C07")
 REFINES = ["Verif.Rec.refines", "Verif.Fifo.refines", "Verif.Rr.refines", "Verif.Lfu.refines", "Verif.Lfuda.refines",
            "Verif.Tlru.refines", "Verif.Utlru.refines", "Verif.UtMap.refines"]
 REFINES_TTL = ["Verif.Tlru.refines", "Verif.Utlru.refines", "Verif.UtMap.refines"]
-LIFT = ["Verif.Refines.runA", "Verif.Core.runA_eq", "Verif.Verified.history_is_run", "Verif.Accept.accept_sound", "Verif.Accept.succ?_sound"]
+LIFT = ["Verif.Refines.runA", "Verif.Core.runA_eq", "Verif.Verified.history_is_run", "Verif.Accept.accept_sound", "Verif.Accept.succ?_sound",
+        "Verif.Refines.runA_anyclock", "Verif.Verified.history_is_run_anyclock", "Verif.tlruV_timeless", "Verif.utlruV_timeless", "Verif.lfudaV_timeless"]
 BUNDLES = ["Verif.lruV", "Verif.mruV", "Verif.fifoV", "Verif.rrV", "Verif.lfuV", "Verif.lfudaV", "Verif.tlruV",
            "Verif.utlruV", "Verif.utmapV"]
 
@@ -30,39 +31,43 @@ ASSUMPTIONS = [
 
 PROPS = {
     "C01": dict(kinds=ALL, modes=["single"], judge="ACC", quick=150, thorough=6000,
-                theorems=["Verif.Verified.C01", "Verif.Spec.lookup_hit_is_last_write", "Verif.Spec.coupled_step"] + LIFT + REFINES + BUNDLES,
+                theorems=["Verif.Verified.C01", "Verif.Verified.C01_anyclock", "Verif.Spec.lookup_hit_is_last_write", "Verif.Spec.coupled_step"] + LIFT + REFINES + BUNDLES,
                 explain="Theorem Verified.C01: in every history of every container model a lookup hit reports the latest successful write of that key (not erased/cleared since), for every victim choice; tie: the implementation's events are accepted by the executable reference semantics (Accept.lean) with the implementation's own victims."),
     "C02": dict(kinds=ALL, modes=["single"], judge="ACC", quick=150, thorough=6000,
-                theorems=["Verif.Verified.C02_bound", "Verif.Spec.size_le_cap_step"] + LIFT + REFINES + BUNDLES,
+                theorems=["Verif.Verified.C02_bound", "Verif.Verified.C02_bound_anyclock", "Verif.Spec.size_le_cap_step"] + LIFT + REFINES + BUNDLES,
+                table=dict(target="Verif.Conc.ClockTable", pred="clockInside", classes=(8, 9),
+                           theorems=["Verif.Conc.table_clockInside", "Verif.Conc.table_clock_nonvacuous",
+                                     "Verif.Conc.generated_clock_under_lock", "Verif.Conc.generated_clock_order",
+                                     "Verif.Conc.clock_under_lock", "Verif.Conc.clock_order"]),
                 explain="Theorem Verified.C02_bound (size <= capacity after every history) plus the Nodup/length invariants of each Refines proof; observers size/empty/capacity and the sweep are compared with the reference semantics after every call."),
     "C03": dict(kinds=ALL, modes=["single"], judge="ACC", quick=150, thorough=6000,
-                theorems=["Verif.Verified.C03", "Verif.Spec.retention_step"] + LIFT + REFINES + BUNDLES,
+                theorems=["Verif.Verified.C03", "Verif.Verified.C03_anyclock", "Verif.Spec.retention_step"] + LIFT + REFINES + BUNDLES,
                 explain="Theorem Verified.C03: at every step of every history a live resident entry survives unless erased, rewritten, or the single victim of an insert of a new key into a full container."),
     "C04": dict(kinds=TTL, modes=["single"], judge="ACC", quick=300, thorough=10000,
                 theorems=["Verif.Verified.C01", "Verif.Spec.lookup_hit_is_last_write", "Verif.Spec.pre_fresh", "Verif.C04_utmap"] + LIFT + REFINES_TTL,
                 explain="Theorem Verified.C01 (lazy flavor clause: a hit is strictly before the deadline of the latest write) and Spec.pre_fresh (eager flavor: after the per-call purge every resident entry is strictly before its deadline)."),
     "C05": dict(kinds=TTL, modes=["single"], judge="ACC", quick=300, thorough=10000,
-                theorems=["Verif.Verified.C05", "Verif.Spec.live_is_served", "Verif.Verified.C03"] + LIFT + REFINES_TTL,
+                theorems=["Verif.Verified.C05", "Verif.Verified.C05_anyclock", "Verif.Spec.live_is_served", "Verif.Verified.C03"] + LIFT + REFINES_TTL,
                 explain="Theorem Verified.C05: a resident entry before its deadline is served by every lookup; its deadline is the one its latest write carried (coupling), and C03 bounds how it can stop being resident."),
     "C09": dict(kinds=ALL, modes=["single"], judge="ACC", quick=150, thorough=6000,
-                theorems=["Verif.Verified.C09", "Verif.Spec.allow_verdict"] + LIFT + REFINES + BUNDLES,
+                theorems=["Verif.Verified.C09", "Verif.Verified.C09_anyclock", "Verif.Spec.allow_verdict"] + LIFT + REFINES + BUNDLES,
                 explain="Theorem Verified.C09: verdict of every single insert/update (and each element of a range) by allow mode and residency; rejected calls change nothing."),
     "C17": dict(kinds=TTL, modes=["single"], judge="ACC", quick=300, thorough=10000,
-                theorems=["Verif.Verified.C17", "Verif.Spec.reap_exact"] + LIFT + REFINES_TTL,
+                theorems=["Verif.Verified.C17", "Verif.Verified.C17_anyclock", "Verif.Spec.reap_exact"] + LIFT + REFINES_TTL,
                 explain="Theorem Verified.C17: clean_expired_values removes exactly the expired entries and returns the drop in size."),
     "C10": dict(kinds=["lru", "tlru", "utlru"], modes=["single"], judge="L1", quick=400, thorough=15000,
-                theorems=["Verif.C10_lru_history", "Verif.C10_C16_tlru_history", "Verif.C10_C16_utlru_history",
+                theorems=["Verif.C10_lru_history", "Verif.C10_lru_history_anyclock", "Verif.C10_C16_tlru_history", "Verif.C10_C16_utlru_history", "Verif.C10_C16_tlru_history_anyclock", "Verif.C10_C16_utlru_history_anyclock",
                           "Verif.C10_lru", "Verif.C10_tlru", "Verif.C10_utlru", "Verif.Core.steps_of_history"],
                 explain="Theorems C10_lru_history / C10_C16_tlru_history / C10_C16_utlru_history: at every evicting insert of every history the model removes the resident key that is first in the recency ghost (a fold over the atoms: accepted writes and successful non-peek lookups move a key to the end); tie: the implementation agrees with the model on every output, observer and sweep, and a different victim is reported as the failing input."),
     "C11": dict(kinds=["lfu", "lfuda"], modes=["single"], judge="L1", quick=500, thorough=15000,
-                theorems=["Verif.C11_lfu_history", "Verif.C11_lfu_count", "Verif.C11_lfu_victim", "Verif.C14_lfuda_history",
+                theorems=["Verif.C11_lfu_history", "Verif.C11_lfu_history_anyclock", "Verif.C11_lfu_count", "Verif.C11_lfu_victim", "Verif.C14_lfuda_history",
                           "Verif.Core.steps_of_history"],
                 explain="Theorems C11_lfu_history (and C14_lfuda_history between aging points): every reported use count equals the count ghost (1 at creation, +1 per accepted update and successful non-peek lookup); the victim's count is minimal."),
     "C12": dict(kinds=["fifo"], modes=["single"], judge="L1", quick=1200, thorough=30000,
-                theorems=["Verif.C12_fifo_history", "Verif.C12_fifo", "Verif.Core.steps_of_history"],
+                theorems=["Verif.C12_fifo_history", "Verif.C12_fifo_history_anyclock", "Verif.C12_fifo", "Verif.Core.steps_of_history"],
                 explain="Theorem C12_fifo_history: the victim is first in the insertion-rank ghost (updates/lookups never move a key; re-insertion re-enters at the end)."),
     "C13": dict(kinds=["mru"], modes=["single"], judge="L1", quick=1200, thorough=30000,
-                theorems=["Verif.C13_mru_history", "Verif.C13_mru", "Verif.Core.steps_of_history"],
+                theorems=["Verif.C13_mru_history", "Verif.C13_mru_history_anyclock", "Verif.C13_mru", "Verif.Core.steps_of_history"],
                 explain="Theorem C13_mru_history: the victim is last in the recency ghost and the new key becomes last."),
     "C14": dict(kinds=["lfuda"], modes=["single"], judge="L1", quick=1200, thorough=30000,
                 theorems=["Verif.C14_lfuda_history", "Verif.C14_lfuda_count", "Verif.C14_lfuda_age", "Verif.C14_lfuda_victim",
@@ -70,11 +75,11 @@ PROPS = {
                 explain="Theorem C14_lfuda_history: counts, dynamically_age()'s result and victims follow the aging ghost (idle strictly longer than the tick: count * num / den, timer restarted; at dynamically_age() and before each victim is chosen).",
                 assume=["the aging ratio is num/den with den a power of two and count*num < 2^24, where the C++ float product is exact"]),
     "C15": dict(kinds=["rr"], modes=["single"], judge="L1", quick=1500, thorough=30000,
-                theorems=["Verif.C15_rr_history", "Verif.C15_rr_victim", "Verif.C15_rr_bijection", "Verif.Core.steps_of_history"],
+                theorems=["Verif.C15_rr_history", "Verif.C15_rr_history_anyclock", "Verif.C15_rr_victim", "Verif.C15_rr_bijection", "Verif.Core.steps_of_history"],
                 explain="Theorem C15_rr_history: the victim is the resident entry in slot r (the outcome of the random source, r < cap), a prior resident and never the inserted key; in a full cache slot -> resident is a bijection. The implementation's draws are mirrored by the harness (same mt19937 seed through a pinned random_device) and fed to the model; spread is additionally measured.",
                 assume=["std::uniform_int_distribution over mt19937 is uniform (trusted); the harness pins std::random_device"]),
     "C16": dict(kinds=["tlru", "utlru"], modes=["single"], judge="L1", quick=800, thorough=20000,
-                theorems=["Verif.C10_C16_tlru_history", "Verif.C10_C16_utlru_history", "Verif.C16_tlru", "Verif.C16_utlru",
+                theorems=["Verif.C10_C16_tlru_history", "Verif.C10_C16_utlru_history", "Verif.C10_C16_tlru_history_anyclock", "Verif.C10_C16_utlru_history_anyclock", "Verif.C16_tlru", "Verif.C16_utlru",
                           "Verif.Core.steps_of_history"],
                 explain="Theorems C10_C16_*_history (C16 clause): if some resident entry has expired the removed entry is an expired one and every live entry stays, after any update_ttl sequence."),
     "C18": dict(kinds=ALL, modes=["c18"], judge="TWIN", quick=150, thorough=5000,
